@@ -630,10 +630,9 @@ def check_C14(ctx):
             if bad:
                 rep.ob("C14.from_binary_card", "one/two-bit value", False, "from_binary_card(%#x) = %s, expected %#x" % bad[0], pdb.where(key))
             else:
-                # not a table: decided over the property's own enumerated space instead of over all 2^64 values
-                rep.ob("C14.from_binary_card", "fold over %d values" % len(alpha), True)
-                rep.note("C14.from_binary_card is computed arithmetically (%s): decided by folding over all 64 single bits, all 2016 two-bit values and 4000 seeded random 64-bit values, not by a cell proof" % e)
-                rep.extra["exhaustive"] = False
+                # not a table, and no counterexample among single bits, two-bit values and seeded values: the rest of
+                # the 2^64 values is not certified
+                rep.uncertified("C14.from_binary_card", "from_binary_card is computed arithmetically (%s); it agrees on all 64 single bits, all 2016 two-bit values and 4000 seeded 64-bit values, which does not certify every value that is not exactly one card bit" % e, pdb.where(key))
             return
         rep.evals(2 * len(cells))
         covered = 0
